@@ -145,6 +145,8 @@ def check(tier="quick", seed=0, workers=None, only=None):
     total.merge_from(rst)
     total.samples = st.samples[:3] + cst.samples[:3]
     viols = common.collect(total, ("C16",))
+    from . import apiuse
+    viols += apiuse.run_all(("C16",))[1] if not only else []
     cov = evidence.stats_coverage(
         total,
         rule=("(a) every connection type x 10 timeout configurations x variant, request with body answered with an interim 1xx + final response, then a second request; "
@@ -155,3 +157,8 @@ def check(tier="quick", seed=0, workers=None, only=None):
     return {"level": "model_checking", "coverage": cov, "violations": viols,
             "assumptions": ["proxy negotiation operations may carry any of the configured connect/read/write values; None is accepted there only when one of the three is absent",
                             "PoolTimeout must be raised at (virtual) enqueue time + T; a re-queued request restarts its clock (the only reading under which the retry loop is judged)"]}
+
+
+def replay_case(case):
+    from . import apiuse
+    return apiuse.replay_case(case, ("C16",))
